@@ -15,7 +15,7 @@ RULE = (
     "configurations: S1 (two sequential tasks), S2 (parallel then task), S5b (over-committed parallel: several rows per step on one worker), "
     "S9 (three tasks stacked on one client, each ending exactly on a worker wake-up), S10 (8 s service times so that the driver's 30 s periodic "
     "post-processing fires inside a task), S11 (composite operation with two named dependent sub-requests), S12 (the last task ends exactly on a "
-    "worker wake-up), S13 (completed-by with a sibling request in flight), S15 (40 s of short requests across the periodic post-processing; S16: 40000 requests within one wake-up interval; "
+    "worker wake-up), S13 (completed-by with a sibling request in flight), S15 (40 s of short requests across the periodic post-processing; S16: 40000 requests within one wake-up interval; S17: a sparse task (one request per 50 s) next to a busy one across the 30 s post-processing rounds; "
     "default schedule) x layouts {1x1, 1x2, 2x1} x "
     "downsampling {1, 2} x sample queue {default, 2}; the Elasticsearch-backed store's buffer under every sequence of <= 4 (6) put / "
     "flush operations; schedules: every sequence of message deliveries, wake-ups, thread steps, time advances "
@@ -66,6 +66,9 @@ SHAPES = {
     "S15": lambda: [T("a", 2, it=80), T("b", 1, it=1)],
     # 40000 very short requests within one worker wake-up interval: far more samples queued when the worker finally drains (twice: wake-up,
     # then join point) than any plausible batch size below the queue capacity (default schedule only)
+    # a busy task next to a sparse one (one request every 50 s): some periodic post-processing rounds contain no sample of the sparse task
+    # although it is still running (default schedule only)
+    "S17": lambda: [P([T("a", 1, it=320), T("b", 1, it=3)]), T("c", 1, it=1)],
     "S16": lambda: [T("a", 1, it=40000), T("b", 1, it=1)],
     "S13": lambda: [P([loadgen.make_task("a", "a", clients=1, iterations=3, completes_parent=True),
                        loadgen.make_task("b", "b", clients=1, time_period=100_000, warmup_time_period=0)]), T("c", 2, it=1)],
@@ -77,6 +80,8 @@ def behaviour_for(shape):
     def behaviour(entry):
         if shape == "S16":
             return {"service_time": 0.0001220703125 if "/verif/a/" in entry["target"] else 0.5, "body": {}}
+        if shape == "S17":
+            return {"service_time": 50.0 if "/verif/b/" in entry["target"] else 0.5, "body": {}}
         st = 8.0 if shape == "S10" and "/verif/a/" in entry["target"] else (0.75 if shape == "S13" and "/verif/b/" in entry["target"] else 0.5)
         return {"service_time": st, "body": {}}
 
@@ -86,7 +91,7 @@ def behaviour_for(shape):
 def configs(tier):
     out = []
     for shape in SHAPES:
-        if shape in ("S15", "S16"):
+        if shape in ("S15", "S16", "S17"):
             continue
         for lname in LAYOUTS:
             if shape in ("S9", "S10", "S11", "S12") and lname != "1x1" and tier == "quick":
@@ -235,7 +240,7 @@ def check_race(cfg, ch, res):
     return r
 
 
-DIFF_JOBS = [("single", "S16", "1x1"), ("single", "S15", "1x1"), ("single", "S15", "1x2"), ("pair", "S1"), ("pair", "S5b"), ("pair", "S9")]
+DIFF_JOBS = [("single", "S16", "1x1"), ("single", "S17", "1x2"), ("single", "S15", "1x1"), ("single", "S15", "1x2"), ("pair", "S1"), ("pair", "S5b"), ("pair", "S9")]
 
 
 def _diff_job(job):
